@@ -66,7 +66,7 @@ def main():
         print("KNOWN-FINDING: property=%s %s (%s; %d case(s) this run)" % (a.prop, e["what"], eid, n))
     res.new_violations = new
     res.coverage["known_finding_cases"] = {k: n for k, (e, n) in seen_known.items()}
-    rdir = os.path.join(ROOT, "replays", a.prop)
+    rdir = os.path.join(os.environ.get("VERIF_REPLAY_DIR") or os.path.join(ROOT, "replays"), a.prop)   # self-test runs use their own scratch dir
     if not a.replay and os.path.isdir(rdir):
         import shutil
         shutil.rmtree(rdir, ignore_errors=True)
